@@ -100,10 +100,7 @@ func (obj *SignedByte) Simplify() any {
 // Equal returns true if this Object and the other are equal in value.
 func (obj *SignedByte) Equal(other Object) (eq bool) {
 	if sb, ok := other.(*SignedByte); ok {
-		return bytes.Equal(
-			bytes.TrimLeft(obj.Bytes, string([]byte{255})),
-			bytes.TrimLeft(sb.Bytes, string([]byte{255})),
-		)
+		other = sb.AsFixOrBig()
 	}
 	return obj.AsFixOrBig().Equal(other)
 }
